@@ -1,11 +1,13 @@
+\* exhaustive check of the property-conforming variant (checks/c11.py generates the same text with other constants)
 SPECIFICATION Spec
 CONSTANTS
   NC = 2
-  MaxCommits = 2
-  MaxSubs = 2
+  MaxCommits = 3
+  MaxSubs = 1
   MaxRestores = 0
   Profile = "health"
-  G = TRUE
+  GGap = TRUE
+  GRestore = TRUE
   Ttls = {FALSE}
 VIEW View
 INVARIANTS InvViewExact InvNoSkip InvRestoreCloses InvAclCloses InvClosedNeverData
